@@ -20,6 +20,7 @@ META = {
     "trusted_base": ["RFC 8152 section 7 / 7.1 as transcribed in spec/rfc8152.py", "std BTreeSet::insert / is_empty, Iterator::map/collect order"],
 }
 META["decides"] += " (As built: shares C08's frame rule - the decoded key is written only by the per-entry dispatch.)"
+META["decides"] += ' Also under R-1: the duplicate rule of this decoder, read_to_value, no decoding error swallowed, every entry dispatched, derived Default / PartialEq / Eq; R-5 the conversion helper on the sequence value of its result.'
 
 DEC = "<key::CoseKey as common::AsCborValue>::from_cbor_value"
 RESULT = "key::CoseKey"
